@@ -83,18 +83,18 @@ H("send_probe", src="h_emit.c", props=["C06", "C10", "C02", "C18", "C19", "C17"]
 
 _EMIT_PROPS = ["C06", "C01", "C02", "C19", "C05", "C10"]
 H("parse_emit", src="h_emit.c", props=_EMIT_PROPS, enforce=["parseEmit"], replace=["sendProbeMsg"],
-  unwind=8, unwindset={"parseEmit.0": 40}, defines=["V_MTU_FIXED=576"],
+  unwind=8, unwindset={"parseEmit.0": 40}, defines=["V_MTU_FIXED=576"], unwind_props={"parseEmit.0": ["C06", "C01"]},
   bounded="frame object of exactly MTU bytes with MTU fixed to 576 (thorough: also 1500); descriptor loop completely unwound for that MTU")
 H("parse_emit_strict", src="h_emit.c", props=_EMIT_PROPS, enforce=["parseEmit"],
   unwind=10, unwindset={"parseEmit.0": 10}, defines=["V_MTU_FIXED=576"], defines_quick=["V_STRICT_N=4"], defines_thorough=["V_STRICT_N=8"],
   must_reach=["end", "tx"], timeout_thorough=3000,
   bounded="exact-count / order / per-frame content clause for n = 1..4 descriptors (thorough: 1..8), MTU fixed to 576; the general harness covers every count for the bound clause")
 H("parse_emit_1500", src="h_emit.c", fn="h_parse_emit", props=_EMIT_PROPS, enforce=["parseEmit"],
-  replace=["sendProbeMsg"], unwind=8, unwindset={"parseEmit.0": 106}, defines=["V_MTU_FIXED=1500"],
+  replace=["sendProbeMsg"], unwind=8, unwindset={"parseEmit.0": 106}, defines=["V_MTU_FIXED=1500"], unwind_props={"parseEmit.0": ["C06", "C01"]},
   thorough_only=True, timeout=3000, bounded="frame object of exactly 1500 bytes; descriptor loop completely unwound")
 
 # ---------------------------------------------------------------- lltdBlock.c: observation path (C07 / C19)
-_PQ = ["C07", "C19", "C01", "C02", "C18", "C17", "C05"]
+_PQ = ["C07", "C19", "C01", "C02", "C18", "C17", "C05", "C10"]
 _LD = {"quick": ["V_LIST_MAX=3"], "thorough": ["V_LIST_MAX=5"]}
 H("parse_probe", src="h_probe_query.c", props=_PQ, enforce=["parseProbe"], unwind=8, unwindset={"v_build_state.0": 50, "lltd_port_memcpy.0": 65}, defines=["V_MTU_FIXED=576", "LLTD_SEE_LIST_MAX=3"],
   defines_quick=_LD["quick"], defines_thorough=["V_LIST_MAX=5", "LLTD_SEE_LIST_MAX=5"] , must_reach=["end", "recorded"],
@@ -102,7 +102,7 @@ H("parse_probe", src="h_probe_query.c", props=_PQ, enforce=["parseProbe"], unwin
 H("parse_query", src="h_probe_query.c", props=_PQ, enforce=["parseQuery"], unwind=8, unwindset={"parseQuery.0": 8, "lltd_state_clear_seen_probes.0": 8, "parseQuery.1": 8, "v_build_state.0": 50, "lltd_port_memcpy.0": 65},
   defines=["V_MTU_FIXED=576", "V_TXCAP=160"], defines_quick=_LD["quick"], defines_thorough=_LD["thorough"],
   must_reach=["end", "answered", "tx"], bounded="observation list of at most 3 nodes (thorough 5)")
-for mtu in (60, 80):
+for mtu in (60, 72, 80, 93):
     H("parse_query_mtu%d" % mtu, src="h_probe_query.c", fn="h_parse_query", props=_PQ, enforce=["parseQuery"], unwind=8,
       unwindset={"parseQuery.0": 8, "lltd_state_clear_seen_probes.0": 8, "parseQuery.1": 8, "v_build_state.0": 50, "lltd_port_memcpy.0": 65},
       defines=["V_MTU_FIXED=%d" % mtu, "V_SMALL_MTU=1"], defines_quick=_LD["quick"], defines_thorough=_LD["thorough"],
@@ -166,15 +166,21 @@ H("esp32_frame", src="h_esp32.c", props=["C01"], unwind=8,
   must_reach=["end", "handled", "short"], no_native=True,
   bounded="told lengths 0..40 (the header guard is at 32); the buffer object has exactly the told length")
 
-_FRAME_PATH = ["parse_frame"] + _HELLO_ALL + ["send_probe", "parse_emit", "parse_emit_strict",
-               "parse_probe", "parse_query", "parse_query_mtu60", "parse_query_mtu80", "send_ltr", "parse_qlt"]
+_HANDLERS = ["send_probe", "parse_emit", "parse_emit_strict", "parse_probe", "parse_query", "parse_query_mtu60", "parse_query_mtu72",
+             "parse_query_mtu80", "parse_query_mtu93", "send_ltr", "parse_qlt"]
+_FRAME_PATH = ["parse_frame"] + _HELLO_ALL + _HANDLERS
+_H1 = [_HELLO_QUICK[0]]          # one Hello instance where the Hello-specific clauses are not the point (quick tier)
 PROPS = {
-    "C01": {"harnesses": _FRAME_PATH + ["tlv_writers", "wire_headers", "derive", "derive_oob", "esp32_frame", "map_step", "sess_step", "enum_step", "tick"]},
-    "C02": {"harnesses": _FRAME_PATH + ["tlv_writers", "wire_headers"]},
-    "C09": {"harnesses": ["parse_frame", "parse_probe", "parse_query", "send_ltr", "parse_qlt", "send_probe", _HELLO_QUICK[0]]},
-    "C17": {"harnesses": ["parse_frame", "send_probe", "parse_probe", "parse_query", "parse_qlt", _HELLO_QUICK[0], "tlv_writers"],
+    "C01": {"harnesses": _FRAME_PATH + ["tlv_writers", "wire_headers", "derive", "derive_oob", "esp32_frame", "map_step", "sess_step", "enum_step", "tick"],
+            "harnesses_quick": ["parse_frame"] + _H1 + _HANDLERS + ["tlv_writers", "wire_headers", "derive_oob", "esp32_frame", "map_step", "sess_step", "enum_step"]},
+    "C02": {"harnesses": _FRAME_PATH + ["tlv_writers", "wire_headers"],
+            "harnesses_quick": ["parse_frame"] + _HELLO_QUICK[:2] + _HANDLERS + ["tlv_writers", "wire_headers"]},
+    "C09": {"harnesses": ["parse_frame", "parse_probe", "parse_query", "send_ltr", "parse_qlt", "send_probe"] + _H1},
+    "C17": {"harnesses": ["parse_frame", "send_probe", "parse_probe", "parse_query", "parse_qlt", "tlv_writers"] + _H1,
+            "harnesses_quick": ["parse_frame", "send_probe", "parse_probe", "parse_query", "parse_qlt"],
             "extra_steps": [closure.core_globals]},
-    "C19": {"harnesses": _FRAME_PATH + ["ctor_mapping", "ctor_enum", "ctor_session", "tab_create"]},
+    "C19": {"harnesses": _FRAME_PATH + ["ctor_mapping", "ctor_enum", "ctor_session", "tab_create"],
+            "harnesses_quick": ["parse_frame"] + _H1 + _HANDLERS + ["ctor_mapping", "ctor_enum", "ctor_session", "tab_create"]},
     "C20": {"harnesses": [], "extra_steps": [closure.core_closure], "level": "other",
             "explanation": "closure condition of the modular proof: the linked core's undefined functions are exactly port-API functions (goto level and, for every compiler x optimisation x hosted/freestanding setting of the property, object level); the repository's own lint rule; no system header beyond the freestanding set",
             "technique": "closure check of the contract proof: undefined-function set of the linked core (goto-instrument, nm over the stated compiler matrix) compared with the functions declared in lltdPort.h; DFCC additionally fails any call to a function with neither body nor contract"},
@@ -182,15 +188,16 @@ PROPS = {
     "C03": {"harnesses": _HELLO_ALL + ["wire_headers", "parse_frame"]},
     "C05": {"harnesses": ["parse_frame"]},
     "C08": {"harnesses": ["send_ltr", "parse_qlt", "c08_reassembly"]},
-    "C07": {"harnesses": ["parse_probe", "parse_query", "parse_query_mtu60", "parse_query_mtu80"]},
+    "C07": {"harnesses": ["parse_probe", "parse_query", "parse_query_mtu60", "parse_query_mtu72", "parse_query_mtu80", "parse_query_mtu93"]},
     "C06": {"harnesses": ["send_probe", "parse_emit", "parse_emit_strict", "parse_emit_1500"]},
-    "C10": {"harnesses": ["send_probe", "parse_emit_strict"]},
+    "C10": {"harnesses": ["send_probe", "parse_emit_strict", "parse_probe"]},
     "C11": {"harnesses": ["derive"]},
     "C16": {"harnesses": ["tab_find", "tab_add", "tab_remove", "tab_update", "tab_queries", "tab_clear", "tab_create", "tab_nullargs", "tick"]},
     "C14": {"harnesses": ["map_step", "tick", "mt_reset_charge", "mt_on_charge", "mt_check_charge", "mt_check_inactive", "mt_reset_inactive"]},
     "C12": {"harnesses": ["tick", "enum_step"]},
     "C15": {"harnesses": ["sess_step"]},
-    "C18": {"harnesses": ["ctor_mapping", "ctor_enum", "ctor_session", "tab_create"] + _FRAME_PATH},
+    "C18": {"harnesses": ["ctor_mapping", "ctor_enum", "ctor_session", "tab_create"] + _FRAME_PATH,
+            "harnesses_quick": ["ctor_mapping", "ctor_enum", "ctor_session", "tab_create", "parse_frame"] + _H1 + _HANDLERS},
     "C13": {
         "harnesses": ["band_update", "band_choose", "band_dohello", "band_heard", "band_init", "c13_monotone", "tick"],
         "explanation": "band_* functions enforced against contracts whose postconditions are the closed forms of "
